@@ -16,8 +16,8 @@ import (
 func init() {
 	register(Property{ID: "C06", Level: "other", Run: runC06,
 		Technique: "static analysis: must-pass-through path conditions on conf.IsValidPathName / conf.FindPathConf / (*conf.Path).validate (go/ssa), constant evaluation of the name charset pattern (regexp/syntax), whole-module origin classification of every value substituted for %path (field stores, call sites, dominating guards) and a who-may table of filesystem operations in the recording packages",
-		Text: "Decides: (1) IsValidPathName returns nil only after the non-empty, leading/trailing slash, charset (pattern constant admits exactly [0-9A-Za-z_-/.]) and dot-segment tests; (2) FindPathConf and Path.validate return success only for validated names (or regexp/all keys, which set Regexp); (3) every value substituted for %path anywhere in the module is a validated request name, a static configuration key, or tabled; decoded path names are validated before use; (4) the filesystem calls of recorder/recordstore/recordcleaner/api/playback are a closed table whose path arguments derive from those substitutions. Does not decide filepath/OS semantics or the contents of operator-chosen record path formats.",
-		Note: "trusted: regexp semantics, path/filepath, go/ssa dominator tree; configuration keys are operator-controlled; struct-field flow is flow-insensitive over all stores of the field in the module"})
+		Text:      "Decides: (1) IsValidPathName returns nil only after the non-empty, leading/trailing slash, charset (pattern constant admits exactly [0-9A-Za-z_-/.]) and dot-segment tests; (2) FindPathConf and Path.validate return success only for validated names (or regexp/all keys, which set Regexp); (3) every value substituted for %path anywhere in the module is a validated request name, a static configuration key, or tabled; decoded path names are validated before use; (4) the filesystem calls of recorder/recordstore/recordcleaner/api/playback are a closed table whose path arguments derive from those substitutions. Does not decide filepath/OS semantics or the contents of operator-chosen record path formats.",
+		Note:      "trusted: regexp semantics, path/filepath, go/ssa dominator tree; configuration keys are operator-controlled; struct-field flow is flow-insensitive over all stores of the field in the module"})
 	addMutants(
 		Mutant{"C06", "drop-dot-segment-loop", "internal/conf/path.go",
 			"	for segment := range strings.SplitSeq(name, \"/\") {\n		if segment == \".\" || segment == \"..\" {\n			return fmt.Errorf(\"can't contain dot path segments\")\n		}\n	}\n\n	return nil\n}\n\nfunc checkSRTPassphrase",
@@ -674,19 +674,19 @@ var c06FSCallees = map[string]bool{
 
 // site -> provenance class of the path argument
 var c06FSTable = map[string]string{
-	"(*internal/recorder.formatFMP4Segment).closeCurPart os.MkdirAll":   "dir-of-segment-path",
-	"(*internal/recorder.formatFMP4Segment).closeCurPart os.Create":     "segment-path",
-	"(*internal/recorder.formatMPEGTSSegment).Write os.MkdirAll":        "dir-of-segment-path",
-	"(*internal/recorder.formatMPEGTSSegment).Write os.Create":          "segment-path",
-	"internal/recordstore.fixedPathHasSegments path/filepath.WalkDir":   "common-path",
+	"(*internal/recorder.formatFMP4Segment).closeCurPart os.MkdirAll":            "dir-of-segment-path",
+	"(*internal/recorder.formatFMP4Segment).closeCurPart os.Create":              "segment-path",
+	"(*internal/recorder.formatMPEGTSSegment).Write os.MkdirAll":                 "dir-of-segment-path",
+	"(*internal/recorder.formatMPEGTSSegment).Write os.Create":                   "segment-path",
+	"internal/recordstore.fixedPathHasSegments path/filepath.WalkDir":            "common-path",
 	"internal/recordstore.regexpPathFindPathsWithSegments path/filepath.WalkDir": "common-path",
-	"internal/recordstore.FindSegments path/filepath.WalkDir":           "common-path",
-	"(*internal/recordcleaner.Cleaner).deleteExpiredSegments os.Remove": "segment-fpath",
-	"(*internal/recordcleaner.Cleaner).deleteEmptyDirs path/filepath.WalkDir": "common-path",
-	"(*internal/recordcleaner.Cleaner).deleteEmptyDirs$1 os.Remove":     "walk-entry",
-	"(*internal/api.API).onRecordingDeleteSegment os.Remove":            "contained",
-	"internal/playback.seekAndMux os.Open":                              "segment-fpath",
-	"internal/playback.parseSegment os.Open":                            "segment-fpath",
+	"internal/recordstore.FindSegments path/filepath.WalkDir":                    "common-path",
+	"(*internal/recordcleaner.Cleaner).deleteExpiredSegments os.Remove":          "segment-fpath",
+	"(*internal/recordcleaner.Cleaner).deleteEmptyDirs path/filepath.WalkDir":    "common-path",
+	"(*internal/recordcleaner.Cleaner).deleteEmptyDirs$1 os.Remove":              "walk-entry",
+	"(*internal/api.API).onRecordingDeleteSegment os.Remove":                     "contained",
+	"internal/playback.seekAndMux os.Open":                                       "segment-fpath",
+	"internal/playback.parseSegment os.Open":                                     "segment-fpath",
 }
 
 func c06FS(c *Ctx, p *Prog) {
